@@ -18,6 +18,7 @@ import keyword
 import os
 import random
 import re
+import time
 import tokenize
 from typing import Any
 
@@ -46,6 +47,7 @@ class Project:
 		self.proj = diskproj.DiskProject(os.path.join(ctx.tmpdir(), 'proj'), ctx.tmpdir())
 		self.sources: dict[str, str] = {}
 		self.labels: dict[str, str] = {}
+		self.second = int(time.time()) - 1000
 
 	def add_generated(self, rng: random.Random, i: int, eof_variant: bool = False) -> str:
 		src, d = pygen.gen_module(rng, n_statements=rng.randint(1, 5))
@@ -53,17 +55,21 @@ class Project:
 		if eof_variant:
 			src, tag = eof_variant_of(rng, src, d['indent'])
 			label += f':{tag}'
-		mp = f'gen.m{i}'
-		self.proj.write(mp, src)
+		return self.add_source(f'gen.m{i}', src, label)
+
+	def add_source(self, mp: str, src: str, label: str, frac_ns: int = 250_000_000) -> str:
+		"""writes the module and stamps its mtime inside a fixed whole second (so that `rewrite` can change the file
+		without leaving that second)"""
+		rel = self.proj.write(mp, src)
+		stamp = self.second * 1_000_000_000 + frac_ns
+		os.utime(os.path.join(self.proj.root, rel), ns=(stamp, stamp))
 		self.sources[mp] = src
 		self.labels[mp] = label
 		return mp
 
-	def add_source(self, mp: str, src: str, label: str) -> str:
-		self.proj.write(mp, src)
-		self.sources[mp] = src
-		self.labels[mp] = label
-		return mp
+	def rewrite(self, mp: str, src: str, label: str) -> str:
+		"""history: the module is edited after its tree was cached; only the fraction of its mtime second changes"""
+		return self.add_source(mp, src, label, frac_ns=750_000_000)
 
 	def add_real(self, mp: str) -> str:
 		"""a real module is snapshotted into the project under its own module path (the project directory comes first in
@@ -799,13 +805,34 @@ def search_spans(ctx: Ctx) -> tuple[SearchResult, SearchResult]:
 			sampled = check_quotations(pr, mp, ep, rng, ctx.scale(40, 60), resq, suffix, sampled if restored else None)
 			kind = pr.labels[mp].split('#')[0].split(':')[0] if mp.startswith('gen.') else 'real'
 			res.histogram[kind + suffix] = res.histogram.get(kind + suffix, 0) + 1
+		if mp.startswith('gen.m') and int(mp[5:]) % 4 == 0:
+			# history: the file is edited (within the same whole second of its mtime) after its tree was cached; a fresh App on
+			# the same cache directory must then report spans that delimit the CURRENT text
+			new_src, _ = pygen.gen_module(rng, n_statements=rng.randint(1, 4))
+			if rng.random() < 0.5:
+				new_src = rng.choice(['x0 = 0\n', '# edited\n', '\n']) + pr.sources[mp]  # same text shifted by one line
+			label = pr.labels[mp] + ':edited-after-caching'
+			pr.rewrite(mp, new_src, label)
+			try:
+				ep = pr.proj.entrypoint(mp)
+				root = diskproj.nodes_of(ep)._Nodes__entries.by(ep.full_path)
+			except Exception as e:  # noqa: BLE001
+				add_finding(res, label, f'reparse-after-edit-raises:{exc_enum(e)}', 'file_input', '', f'parsing the edited module raises {exc_enum(e)}', {'module': label, 'source': new_src[:20000]})
+				continue
+			res.cases += 1
+			try:
+				check_tree(label, new_src, root, literals, res, '')
+			except Exception as e:  # noqa: BLE001
+				add_finding(res, label, f'span-raises:{exc_enum(e)}', 'file_input', '', f'reading the spans raises {exc_enum(e)}', {'module': label, 'source': new_src[:20000]})
+			check_quotations(pr, mp, ep, rng, ctx.scale(40, 60), resq, '')
+			res.histogram['edited-after-caching'] = res.histogram.get('edited-after-caching', 0) + 1
 		if len(res.samples) < 2:
 			res.samples.append({'module': pr.labels[mp], 'bytes': len(pr.sources[mp])})
 	res.distinct = len(seen)
 	resq.distinct = resq.cases
 	if not exercised and not res.findings and not resq.findings:
 		raise common.InfraError('no module was restored from the on-disk cache: the restored half of the search did not run')
-	res.note = 'restrictions: positions inside a CPython STRING token are exempt from the boundary/content checks (quoted annotations are lexed by the grammar as QUOTE NAME QUOTE); CPython NAME tokens that are Python keywords or anonymous literals of grammar.lark, and `# type: ignore` comments (ignored by the grammar) need not be terminals; f-strings are folded into one STRING; the end of a multi-line CPython STRING token is recomputed from its start and text (CPython 3.12 miscounts it after non-ASCII text); files with CR are excluded; for a text without final line feed (lines+1, 1) counts as end of input'
+	res.note = 'history: every 4th generated module is rewritten after its tree was cached (mtime changed only in its fractional second) and re-parsed by a fresh App on the same cache directory — the spans must delimit the current text; restrictions: positions inside a CPython STRING token are exempt from the boundary/content checks (quoted annotations are lexed by the grammar as QUOTE NAME QUOTE); CPython NAME tokens that are Python keywords or anonymous literals of grammar.lark, and `# type: ignore` comments (ignored by the grammar) need not be terminals; f-strings are folded into one STRING; the end of a multi-line CPython STRING token is recomputed from its start and text (CPython 3.12 miscounts it after non-ASCII text); files with CR are excluded; for a text without final line feed (lines+1, 1) counts as end of input'
 	resq.note = 'an empty column range is shown by one caret at its position (the renderer\'s documented minimum); nodes whose span has no position (0,0,0,0) must not be quoted at all (regression of fix dc3e568); a None position or a raising renderer is a finding (regression of fix 46d0462); CRLF files excluded'
 	return res, resq
 
